@@ -133,6 +133,39 @@ def run_mc(module, cfg, workers=8, timeout=900, xmx="8g", expect_violation=None,
     return res
 
 
+def gen_cases(module, cfg, timeout=600, xmx="4g", marker="CASE"):
+    """Runs a GEN_* generator spec; returns the JSON payloads of its
+    PrintT(<<"CASE", ToJson(..)>>) lines plus TLC's state counts."""
+    meta = outdir("tlc", "gen-%s-%d" % (cfg.replace(".cfg", ""), os.getpid()), clean=True)
+    cmd = _java(["-Xss64m"], xmx) + ["-workers", "1", "-metadir", meta, "-cleanup", "-noGenerateSpecTE",
+                                     "-config", cfg, module + ".tla"]
+    t0 = time.time()
+    try:
+        p = subprocess.run(cmd, cwd=SPEC, stdout=subprocess.PIPE, stderr=subprocess.STDOUT,
+                           text=True, timeout=timeout)
+    except subprocess.TimeoutExpired:
+        shutil.rmtree(meta, ignore_errors=True)
+        raise ToolError("TLC timed out generating cases from %s/%s" % (module, cfg))
+    shutil.rmtree(meta, ignore_errors=True)
+    cases = []
+    pat = re.compile(r'^<<"%s", "(.*)">>$' % marker)
+    for line in p.stdout.splitlines():
+        m = pat.match(line.strip())
+        if m:
+            txt = m.group(1).replace('\\"', '"').replace("\\\\", "\\")
+            cases.append(json.loads(txt))
+    m = None
+    for m in _RE_STATES.finditer(p.stdout):
+        pass
+    if p.returncode != 0 or not cases:
+        sys.stdout.write(p.stdout[-3000:])
+        raise ToolError("case generation %s/%s failed" % (module, cfg))
+    info = {"module": module, "cfg": cfg, "states": int(m.group(2)) if m else 0,
+            "transitions": int(m.group(1)) if m else 0, "wall_s": round(time.time() - t0, 2),
+            "cases": len(cases)}
+    return cases, info
+
+
 def _validate_one(trace_module, cfg, trace_file, timeout, xmx, extra_env):
     out_json = trace_file + ".verdict.json"
     if os.path.exists(out_json):
